@@ -51,6 +51,16 @@ impl VerifCtx<Primitive> for Option<Primitive> { #[verifier::external_body] fn v
     ensures vecs(final(h)) == vecs(old(h)).insert(vid(v), vecs(old(h))[vid(v)].push(x)), maps(final(h)) == maps(old(h)) { unimplemented!() }
 #[verifier::external_body] pub fn cell_clear(h: &mut Heap, v: &VecH) requires live(old(h), v)
     ensures vecs(final(h)) == vecs(old(h)).insert(vid(v), Seq::<Primitive>::empty()), maps(final(h)) == maps(old(h)) { unimplemented!() }
+// Vec::reserve PANICS when the new capacity exceeds isize::MAX bytes and ABORTS the process when the allocator fails (std documentation):
+// `reserve_cannot_fail` is what a caller would have to know -- nothing in the interpreter establishes it for a size the program chose (R8)
+pub uninterp spec fn reserve_cannot_fail(len: nat, additional: usize) -> bool;
+#[verifier::external_body] pub fn cell_reserve(h: &mut Heap, v: &VecH, additional: usize) requires live(old(h), v), reserve_cannot_fail(vecs(old(h))[vid(v)].len(), additional)
+    ensures vecs(final(h)) == vecs(old(h)), maps(final(h)) == maps(old(h)) { unimplemented!() }
+// Vec::try_reserve: the same request as a Result (capacity overflow / allocator failure are errors); the contents are untouched either way
+#[verifier::external_body] pub fn cell_try_reserve(h: &mut Heap, v: &VecH, additional: usize) -> (r: Result<(), VErr>) requires live(old(h), v)
+    ensures vecs(final(h)) == vecs(old(h)), maps(final(h)) == maps(old(h)) { unimplemented!() }
+impl VerifCtx<()> for Result<(), VErr> { #[verifier::external_body] fn verif_ctx(self) -> (r: Result<(), VErr>) ensures r is Ok <==> self is Ok { unimplemented!() } }
+#[verifier::external_body] pub fn cell_capacity(h: &Heap, v: &VecH) -> (r: usize) requires live(h, v) ensures r >= vecs(h)[vid(v)].len() { unimplemented!() }
 #[verifier::external_body] pub fn cell_snapshot(h: &Heap, v: &VecH) -> (r: Vec<Primitive>) requires live(h, v) ensures r@ == vecs(h)[vid(v)] { unimplemented!() }
 #[verifier::external_body] pub fn cell_extend(h: &mut Heap, v: &VecH, added: Vec<Primitive>) requires live(old(h), v)
     ensures vecs(final(h)) == vecs(old(h)).insert(vid(v), vecs(old(h))[vid(v)] + added@), maps(final(h)) == maps(old(h)) { unimplemented!() }
@@ -112,6 +122,12 @@ ARMS = {
                 && r->Ok_0.0 == Some(Primitive::Optional(Some(Box::new(Primitive::Int(k as i32))))) })""", False),
  "VecClear": ("""requires list_recv(old(heap), arguments@)
     ensures r is Ok, vecs(final(heap)) == vecs(old(heap)).insert(vid(&arguments@[0]->Vector_0), Seq::<Primitive>::empty()), maps(final(heap)) == maps(old(heap))""", True),
+ "VecEnsureInnerCapacity": ("""requires list_recv(old(heap), arguments@), arguments@.len() >= 2, arguments@[1] is Int
+    // C17: whatever size the program asks for, the built-in returns (a value or an MScript error) -- it never panics or aborts the interpreter;
+    // the list's elements are untouched (capacity is not an element)
+    ensures vecs(final(heap)) == vecs(old(heap)), maps(final(heap)) == maps(old(heap)), arguments@[1]->Int_0 < 0 ==> r is Err""", True),
+ "VecInnerCapacity": ("""requires list_recv(heap, arguments@)
+    ensures r is Ok ==> r->Ok_0.0 is Some && r->Ok_0.0->Some_0 is Int && r->Ok_0.0->Some_0->Int_0 >= vecs(heap)[vid(&arguments@[0]->Vector_0)].len()""", False),
  "VecClone": ("""requires list_recv(old(heap), arguments@)
     ensures ({ let a = vid(&arguments@[0]->Vector_0);
         // a clone is a NEW list (no existing alias points to it) with the same contents; the original is untouched
@@ -175,6 +191,9 @@ def cells_pass(toks, log, what):
         ("CELL ( $h ) . remove ( $$i )", "cell_remove ( heap , $h , $$i )"),
         ("CELL ( $h ) . push ( $$e )", "cell_push ( heap , $h , $$e )"),
         ("CELL ( $h ) . pop ( )", "cell_pop ( heap , $h )"),
+        ("CELL ( $h ) . try_reserve ( $$n )", "cell_try_reserve ( heap , $h , $$n )"),
+        ("CELL ( $h ) . reserve ( $$n )", "cell_reserve ( heap , $h , $$n )"),
+        ("CELL ( $h ) . capacity ( )", "cell_capacity ( heap , $h )"),
         ("CELL ( $h ) . clear ( )", "cell_clear ( heap , $h )"),
         ("CELL ( $h ) . extend ( $$e )", "cell_extend ( heap , $h , $$e )"),
         ("CELL ( $h ) . to_vec ( )", "cell_snapshot ( heap , $h )"),
@@ -199,6 +218,8 @@ def arm_rules(name):
         Rule("R7", "len . try_into ( ) . with_context ( $$c ) ?", "usize_to_i32 ( len ) ?", why="usize -> i32 conversion"),
         Rule("R7", "result . try_into ( ) . with_context ( $$c ) ?", "usize_to_i32 ( result ) ?", why="usize -> i32 conversion"),
         Rule("R7", "( * i ) . try_into ( ) . with_context ( $$c ) ?", "i32_to_usize ( * i ) ?", why="i32 -> usize conversion"),
+        Rule("R7", "( * size ) . try_into ( ) . with_context ( $$c ) ?", "i32_to_usize ( * size ) ?", why="i32 -> usize conversion"),
+        Rule("R7", "cap . try_into ( ) . with_context ( $$c ) ?", "usize_to_i32 ( cap ) ?", why="usize -> i32 conversion"),
         Rule("R3", ". with_context ( $$c ) ?", ". verif_ctx ( ) ?", why="Option/Result::with_context: None -> Err; text dropped"),
         Rule("R1", ". clone ( )", ". vclone ( )", why="clone of a value / of a handle (handle clone keeps the cell)"),
         Rule("R1", "if let Some ( ( result , _ ) ) = result", "if let Some ( result ) = result", why="(index, element) pair -> index"),
@@ -229,7 +250,7 @@ pub fn arm_{name}(arguments: Vec<Primitive>, heap: {heap_t}) -> (r: Result<(Opti
 {render(b, 1)}
 }}
 """)
-        obls.append(Obl(f"C13.{name}", ["C13", "C17"] if name == "VecRemove" else ["C13"], fn=f"arm_{name}",
+        obls.append(Obl(f"C13.{name}", ["C13", "C17"] if name in ("VecRemove", "VecEnsureInnerCapacity") else ["C13"], fn=f"arm_{name}",
                         desc=f"BuiltInFunction::run arm {name}: effect on the heap cell of the receiver (seen by every alias) and result, against the sequence model"))
     # Primitive::equals, arm (P::Vector(v1), P::Vector(v2))
     feq = src.fn(PRIM, "equals")
